@@ -379,6 +379,46 @@ func runStoreConc(progs [][]storeOp) []Event {
 	return evs
 }
 
+// runStoreStress runs the programs concurrently without recording them, then asks the quiescent store about itself.
+func runStoreStress(progs [][]storeOp) Event {
+	s := flyt.NewSharedStore()
+	start := make(chan struct{})
+	var wg sync.WaitGroup
+	for g := range progs {
+		wg.Add(1)
+		go func(g int) {
+			defer wg.Done()
+			<-start
+			for _, o := range progs[g] {
+				applyStoreOp(s, o)
+			}
+		}(g)
+	}
+	close(start)
+	wg.Wait()
+	ln := s.Len()
+	keys := s.Keys()
+	all := s.GetAll()
+	hasAll := true
+	for _, k := range keys {
+		_, ok := s.Get(k)
+		hasAll = hasAll && ok && s.Has(k)
+	}
+	for k := range all {
+		hasAll = hasAll && s.Has(k)
+	}
+	toks := make([]int, len(keys))
+	for i, k := range keys {
+		toks[i] = keyTok(k)
+	}
+	sort.Ints(toks)
+	kl := []any{}
+	for _, t := range toks {
+		kl = append(kl, t)
+	}
+	return Event{"ev": "quiesce", "len": ln, "keys": kl, "pairs": pairsOf(all), "hasall": hasAll}
+}
+
 func progsToJSON(progs [][]storeOp) []any {
 	l := []any{}
 	for _, p := range progs {
@@ -464,11 +504,14 @@ func init() {
 					progs[j] = append(progs[j], randStoreOp(r, nKeys))
 				}
 			}
-			evs := runStoreConc(progs)
 			if stress {
-				// the only oracle of the stress run is the race detector: keep the record small
-				evs = evs[:0]
+				// oracles of the stress run: the race detector, and the store's answers about itself once
+				// every goroutine has finished (a counter or cache that drifted stays wrong)
+				q := runStoreStress(progs)
+				o.WriteScenario(i+1, "storestress", "gen", map[string]any{"g": g}, nil, []Event{q})
+				continue
 			}
+			evs := runStoreConc(progs)
 			o.WriteScenario(i+1, "storeconc", "gen", map[string]any{"progs": progsToJSON(progs), "g": g}, nil, evs)
 		}
 	}
